@@ -3,7 +3,7 @@
 cd "$(dirname "$0")/.."
 P=$1; N=$2; EXTRA=$3
 src=/tmp/mut/$P/_mutation$N
-dst=seeded/$P-m$N
+dst=seeded/$P-m${DSTN:-$N}
 mkdir -p $dst
 cp $src/patch.diff $src/demo.py $dst/ 2>/dev/null
 cp $src/notes.md $dst/notes.md 2>/dev/null
